@@ -9,6 +9,7 @@ mod c01;
 mod c08;
 mod c09;
 mod common;
+mod conc;
 mod hist;
 mod par;
 
@@ -18,6 +19,8 @@ fn main() {
     let args = Args::parse();
     match args.prop.as_str() {
         "C01" => c01::run(&args),
+        "C03" if args.param("mode") == Some("concurrent") => conc::run(&args, hist::Mode::C03),
+        "C05" if args.param("mode") == Some("concurrent") => conc::run(&args, hist::Mode::C05),
         "C03" => hist::run(&args, hist::Mode::C03),
         "C05" => hist::run(&args, hist::Mode::C05),
         "C08" => c08::run(&args),
